@@ -20,7 +20,69 @@ import (
 // (the deep-spine profile is about 30 times as expensive per case as the others: one case in fourteen)
 var editProfiles = []docProfile{profTiny, profTiny, profMedium, profKeys, profUniq, profStr, profNum, profTiny, profMedium, profKeys, profUniq, profStr, profNum, profDeep}
 
-func c13Check(c historyCase) error { return runHistory(c, fullInvariants, nil) }
+func c13Check(c historyCase) error { return runHistory(c, fullInvariants, c13After) }
+
+// c13After: Set* calls on positions that hold no value at all - an iterator that was never advanced and iterators that
+// AdvanceInto left on a closing ] or } - are calls "the documentation disallows for the current type": each must return
+// an error and change nothing (closing root tags are left alone: root tags are outside the claim, DESIGN section 6).
+func c13After(step int, pj *simdjson.ParsedJson, roots []*rj.Node) error {
+	before := append([]uint64(nil), pj.Tape...)
+	strBefore := append([]byte(nil), pj.Strings.B...)
+	var positions []simdjson.Iter
+	positions = append(positions, pj.Iter())
+	it := pj.Iter()
+	ends := 0
+	for n := 0; n < 4000 && ends < 6; n++ {
+		tag := it.AdvanceInto()
+		if tag == simdjson.TagEnd {
+			break
+		}
+		if tag == simdjson.TagObjectEnd || tag == simdjson.TagArrayEnd {
+			// sample: the first two and then every third closing tag
+			if ends < 2 || n%3 == 0 {
+				positions = append(positions, it)
+				ends++
+			}
+		}
+	}
+	calls := []struct {
+		name string
+		fn   func(i *simdjson.Iter) error
+	}{
+		{"SetNull", func(i *simdjson.Iter) error { return i.SetNull() }},
+		{"SetBool", func(i *simdjson.Iter) error { return i.SetBool(true) }},
+		{"SetInt", func(i *simdjson.Iter) error { return i.SetInt(-7) }},
+		{"SetUInt", func(i *simdjson.Iter) error { return i.SetUInt(7) }},
+		{"SetFloat", func(i *simdjson.Iter) error { return i.SetFloat(1.5) }},
+		{"SetString", func(i *simdjson.Iter) error { return i.SetString("x") }},
+		{"SetStringBytes", func(i *simdjson.Iter) error { return i.SetStringBytes([]byte("yz")) }},
+	}
+	for pi, pos := range positions {
+		for _, c := range calls {
+			cp := pos
+			err := c.fn(&cp)
+			where := "a closing tag"
+			if pi == 0 {
+				where = "an iterator that was never advanced"
+			}
+			if err == nil {
+				return fmt.Errorf("%s on %s (tag %q) succeeded; there is no value to replace there", c.name, where, byte(pos.PeekNextTag()))
+			}
+			if len(pj.Tape) != len(before) {
+				return fmt.Errorf("%s on %s failed (%v) but changed the tape length", c.name, where, err)
+			}
+			for k := range before {
+				if before[k] != pj.Tape[k] {
+					return fmt.Errorf("%s on %s failed (%v) but changed tape[%d]", c.name, where, err, k)
+				}
+			}
+			if !bytes.Equal(strBefore, pj.Strings.B) {
+				return fmt.Errorf("%s on %s failed (%v) but changed the string buffer", c.name, where, err)
+			}
+		}
+	}
+	return nil
+}
 func c14Check(c historyCase) error {
 	c14ReuseEls, c14PrevKeys = nil, nil // per-case state, so that a case replays on its own
 	return runHistory(c, fullInvariants, c14After)
